@@ -72,6 +72,16 @@ def literal_values(t, lens, which: str):
     return v
 
 
+def _annotatable(t):
+    """PyTeal can spell the type as a Python annotation (needed for an ABIReturnSubroutine output; tuples of more
+    than a handful of members have no annotation class)"""
+    try:
+        T.to_spec(t).annotation_type()
+        return True
+    except TypeError:
+        return False
+
+
 def build_jobs(t_, sd):
     thorough = t_ != "quick"
     jobs = []
@@ -92,7 +102,7 @@ def build_jobs(t_, sd):
                         backends.append(("sub", {"frame_pointers": False}))
                 elif thorough or v == 6:
                     backends.append(("sub", None))
-                if v >= 8 or (thorough and v == 6):
+                if (v >= 8 or (thorough and v == 6)) and _annotatable(t):
                     backends.append(("abiret", None))
                 for be, opt in backends:
                     jobs.append({"id": "enc:%s:%s@v%d/%s%s" % (T.T_str(t), lv, v, be, "" if opt is None else "-nofp"), "family": "encode:" + be,
